@@ -74,6 +74,13 @@ func (s *Server) proxyRoute(c *gin.Context) {
 }
 
 func (s *Server) panicRoute(c *gin.Context, err any) {
+	if err == http.ErrAbortHandler {
+		// The reverse proxy aborts the response when the upstream fails part
+		// way through the body. Re-panic so the connection is closed rather
+		// than the truncated response being completed as if it was whole.
+		panic(err)
+	}
+
 	s.logger.Error(
 		"handler panic",
 		zap.String("path", c.FullPath()),
